@@ -714,6 +714,7 @@ pub fn check(case: &Case) -> Verdict {
     info.nontrivial = transcoding && (split_before_match || after_malformed);
     info.class(intern(format!("enc:{tag}")));
     info.class_if(after_malformed, "match_after_malformed_sequence");
+    info.class_if(case.cfg.warm.is_some(), "searcher_reused_after_another_input");
     info.class_if(split_before_match, "match_after_split_character");
     info.class_if(!match_ends.is_empty(), "has_match");
     info.class_if(input.len() > DECODE_BUF, "input>8KiB");
@@ -1220,6 +1221,7 @@ pub fn gen_case(t: &mut Tape) -> Case {
         multi_line: spec.multi,
         encoding: label.map(|l| t.pick(l.labels()).to_string()),
         bom_sniffing: sniff,
+        warm: crate::gen::gen_warm(t, term),
         ..SCfg::default()
     };
 
